@@ -2,7 +2,7 @@
 # usage: seed_eval.sh <seed dir with patch.diff and demo.py> <Cxx> [more Cxx ...]
 # Applies the seeded change to a scratch copy of /repo, runs the demonstration with and without it,
 # then runs the given checks against the changed copy.  Cleans up.
-d=$1; shift
+d=$(realpath $1); shift
 tmp=$(mktemp -d /tmp/seedeval_XXXX)
 for x in emu_base emu_mps emu_sv pyproject.toml ci test; do cp -r /repo/$x $tmp/ 2>/dev/null; done
 echo "== demo on unchanged copy"; (cd $tmp && PYTHONPATH=$tmp timeout 1500 /venv/bin/python $d/demo.py > $tmp/demo0.log 2>&1; echo "exit=$?"; tail -2 $tmp/demo0.log)
